@@ -16,6 +16,8 @@ def run_model(prog, lines=None, files=None, step_limit=200000):
         return None, "unsupported:" + str(e)[:40]
     except RecursionError:
         return None, "model-recursion"
+    except MemoryError:
+        return None, "model-memory"
     except values.NanKey:
         return None, "unsupported:nan-map-key"
 
